@@ -114,8 +114,15 @@ def classify(bad, texts, wd):
         if i not in known and v == "bad:rejected-derivable":
             body = texts[i]
             import re
-            if re.search(r"(?<![\w@.$-])\${1,2}(?![A-Za-z_@$])", body):
+            # a '$' / '$$' that stands alone as an identifier, also directly after a control operator name ('.eq$ x' read as '.eq $ x')
+            if re.search(r"(?<![\w@.$-])\${1,2}(?![A-Za-z_@$])", body) or re.search(r"\.[A-Za-z][A-Za-z0-9-]*\${1,2}(?![A-Za-z_@$])", body):
                 known[i] = "C03-bare-dollar-identifier"
+    for i, v in bad:
+        if i not in known and v == "bad:rejected-derivable":
+            import re
+            # '&' applied to a name with a single '$' prefix: an id per the ABNF, but the PEG wants a group name ('$$' socket or plain)
+            if re.search(r"&\s*\$(?!\$)", texts[i]):
+                known[i] = "C03-single-dollar-groupname"
     return known
 
 
@@ -149,7 +156,9 @@ def run():
             out.violation("outcome:" + sorted(o)[0], {"property": PID, "cddl": text, "observed": o})
             continue
         if not o["ok"]:
-            if err_class(o) == "semantic":
+            # a generated document can legitimately repeat a rule name or spell a number beyond the representable range;
+            # its literals are valid by construction, so an 'Invalid ...' literal error is a rejection of a derivable document
+            if any(k in ((o.get("err") or {}).get("short") or "") for k in ("already defined", "out of range")):
                 continue
             out.violation("generated-document-rejected:" + (o["err"].get("short") or "")[:50],
                           {"property": PID, "kind": "rejected-generated", "cddl": text, "error": o["err"], "generated_ast": rules,
